@@ -11,6 +11,8 @@ import (
 	"fmt"
 	"io"
 	"runtime"
+	"sync/atomic"
+	"time"
 
 	spg "go.1password.io/spg"
 )
@@ -61,19 +63,21 @@ type ReadRec struct {
 // Tape is an io.Reader standing in for the OS random source.
 type Tape struct {
 	// ---- configuration ----
-	Script     []uint32     // index mode: draw indices
-	Words      []uint32     // word mode (UseWords): raw 32-bit words, delivered big-endian
-	UseWords   bool         //
-	AutoExtend bool         // index mode: draws beyond the script take index 0 (explorer)
-	MaxDraws   int          // > 0: the (MaxDraws+1)-th announced draw is cut (reads fail)
-	RejectAt   map[int]bool // draw ordinals (1-based) at which a word observed to be rejected is delivered first
-	RejectRun  int          // how many rejected words in a row are delivered there (0 = one)
-	Chunk      []int        // bytes per Read, cycled; nil = as many as requested
-	FaultAt    int          // 1-based ordinal of the Read call that fails; 0 = none
-	FaultBytes int          // bytes delivered by the failing read
-	FaultStick bool         // every later read fails as well
-	FaultErr   error        // the error the failing read returns (nil: ErrInjected)
-	Yield      bool         // runtime.Gosched() inside every Read
+	Script     []uint32      // index mode: draw indices
+	Words      []uint32      // word mode (UseWords): raw 32-bit words, delivered big-endian
+	UseWords   bool          //
+	AutoExtend bool          // index mode: draws beyond the script take index 0 (explorer)
+	MaxDraws   int           // > 0: the (MaxDraws+1)-th announced draw is cut (reads fail)
+	RejectAt   map[int]bool  // draw ordinals (1-based) at which a word observed to be rejected is delivered first
+	RejectRun  int           // how many rejected words in a row are delivered there (0 = one)
+	Chunk      []int         // bytes per Read, cycled; nil = as many as requested
+	FaultAt    int           // 1-based ordinal of the Read call that fails; 0 = none
+	FaultBytes int           // bytes delivered by the failing read
+	FaultStick bool          // every later read fails as well
+	FaultErr   error         // the error the failing read returns (nil: ErrInjected)
+	Yield      bool          // runtime.Gosched() inside every Read
+	StallAt    int           // the StallAt-th read (1-based) is answered only after Stall has passed: a source that blocks
+	Stall      time.Duration // (a stimulus only: nothing is ever judged by the clock)
 	KeepLog    bool
 	Aux        bool // an auxiliary execution (fault-aborted run between two leaves): its outcome is not a leaf
 
@@ -87,6 +91,8 @@ type Tape struct {
 	Exhausted       bool
 	Cut             bool
 	ExtraRead       bool
+	ReadAhead       int // words handed out beyond the one scripted for a draw, before the next draw was announced
+	readAhead       int // ... within the current draw
 	Rejected        int // rejected words actually delivered
 	Log             []ReadRec
 
@@ -117,6 +123,7 @@ func OSReader() io.Reader { return osReader }
 // OnDraw is called by the hook at the start of every bounded draw.
 func (t *Tape) OnDraw(n uint32) {
 	t.Draws++
+	t.readAhead = 0
 	if t.Draws > HardDrawCap {
 		panic(Runaway)
 	}
@@ -180,9 +187,25 @@ func (t *Tape) logRead(req, got int, err bool) {
 	}
 }
 
+// ErrorsDelivered counts the reads any Tape answered with an error in this process: the harness compares it
+// before and after a call to know that a panic or error of the library followed a failure of the source,
+// whatever the library chose to say about it.
+var ErrorsDelivered int64
+
 // Read implements io.Reader.
 func (t *Tape) Read(b []byte) (int, error) {
+	n, err := t.read(b)
+	if err != nil {
+		atomic.AddInt64(&ErrorsDelivered, 1)
+	}
+	return n, err
+}
+
+func (t *Tape) read(b []byte) (int, error) {
 	t.Reads++
+	if t.StallAt > 0 && t.Reads == t.StallAt {
+		time.Sleep(t.Stall)
+	}
 	if t.Yield {
 		runtime.Gosched()
 	}
@@ -204,8 +227,17 @@ func (t *Tape) Read(b []byte) (int, error) {
 		t.buf = binary.BigEndian.AppendUint32(t.buf[:0], t.Words[t.wi])
 		t.wi++
 	}
+	if len(t.buf) == 0 && !t.UseWords && len(t.Path) > 0 && t.Path[len(t.Path)-1].N > 0 && t.readAhead < 64 {
+		// index mode, the word scripted for the announced draw is used up and the code reads on without
+		// announcing another draw: a draw that fetches its raw words ahead (several at a time) is still the same
+		// draw, so it is handed the same accepted word again (a bounded number of times)
+		last := t.Path[len(t.Path)-1]
+		t.readAhead++
+		t.ReadAhead++
+		t.buf = binary.BigEndian.AppendUint32(t.buf[:0], WordFor(last.N, last.I))
+	}
 	if len(t.buf) == 0 {
-		// index mode: the code read without announcing a draw, or read on
+		// index mode: the code read without announcing a draw, or kept reading on
 		// after the word scripted for the draw (it rejected it).
 		t.ExtraRead = true
 		t.failed = ErrExtraRead
@@ -271,19 +303,29 @@ func (l LearnFailure) Error() string {
 }
 
 type probe struct {
-	w     []uint32
-	k     int
-	reads int
+	w       []uint32
+	k       int
+	reads   int
+	stallAt int
+	stall   time.Duration
 }
 
 func (p *probe) Read(b []byte) (int, error) {
 	p.reads++
-	if p.k >= len(p.w) || len(b) != 4 {
+	if p.stallAt > 0 && p.reads == p.stallAt {
+		time.Sleep(p.stall)
+	}
+	// whole words for as much of b as they fill (a draw may fetch several raw words at a time)
+	if p.k >= len(p.w) || len(b) < 4 {
 		return 0, ErrExhausted
 	}
-	binary.BigEndian.PutUint32(b, p.w[p.k])
-	p.k++
-	return 4, nil
+	n := 0
+	for n+4 <= len(b) && p.k < len(p.w) {
+		binary.BigEndian.PutUint32(b[n:], p.w[p.k])
+		p.k++
+		n += 4
+	}
+	return n, nil
 }
 
 // Observe runs the real bounded draw on the given raw words with the hook
@@ -292,6 +334,23 @@ func (p *probe) Read(b []byte) (int, error) {
 func Observe(n uint32, words ...uint32) (res uint32, reads int, panicked bool) {
 	saveR, saveH := rand.Reader, spg.VerifOnDraw
 	p := &probe{w: words}
+	rand.Reader = p
+	spg.VerifOnDraw = nil
+	defer func() {
+		rand.Reader, spg.VerifOnDraw = saveR, saveH
+		if r := recover(); r != nil {
+			panicked = true
+			reads = p.reads
+		}
+	}()
+	res = spg.VerifRandomUint32n(n)
+	return res, p.reads, false
+}
+
+// ObserveStalled is Observe with a source that blocks for d before it answers its at-th read.
+func ObserveStalled(n uint32, at int, d time.Duration, words ...uint32) (res uint32, reads int, panicked bool) {
+	saveR, saveH := rand.Reader, spg.VerifOnDraw
+	p := &probe{w: words, stallAt: at, stall: d}
 	rand.Reader = p
 	spg.VerifOnDraw = nil
 	defer func() {
@@ -329,6 +388,12 @@ func WordFor(n, i uint32) uint32 {
 			return uint32(w)
 		}
 	}
+	// a multiplicative mapping (index = word*n >> 32) puts index i in the middle of [i*2^32/n, (i+1)*2^32/n)
+	if n > 0 {
+		if mid := (uint64(2*uint64(i)+1) << 31) / uint64(n); mid <= 0xFFFFFFFF && try(uint32(mid)) {
+			return uint32(mid)
+		}
+	}
 	// byte-swapped and shifted guesses, then a deterministic scan
 	sw := i<<24 | (i&0xFF00)<<8 | (i>>8)&0xFF00 | i>>24
 	if try(sw) {
@@ -352,15 +417,44 @@ func WordFor(n, i uint32) uint32 {
 	panic(LearnFailure{n, i})
 }
 
+var accCache = map[uint32]int64{}
+
+// AcceptedWordFor returns a raw word the real bounded draw with bound n was observed to accept at once (one
+// read). More than half of all words are, so a handful of candidates suffices; which ones are accepted is
+// the implementation's business.
+func AcceptedWordFor(n uint32) (uint32, bool) {
+	if v, ok := accCache[n]; ok {
+		return uint32(v), v >= 0
+	}
+	for _, w := range []uint32{0, 1, 0x80000000, 0x12345678, 0x7FFFFFFF, 0x40000001, 0xC0000003, 0x2468ACE1, 0x9E3779B9, 0x00FF00FF} {
+		_, reads, p := Observe(n, w)
+		if !p && reads == 1 {
+			accCache[n] = int64(w)
+			return w, true
+		}
+	}
+	accCache[n] = -1
+	return 0, false
+}
+
 // RejectedWordFor returns a raw word the real bounded draw was observed to
 // reject (it read a second word), if one was found near the top of the range.
 func RejectedWordFor(n uint32) (uint32, bool) {
 	if v, ok := rejCache[n]; ok {
 		return uint32(v), v >= 0
 	}
-	for _, w := range []uint32{0xFFFFFFFF, 0xFFFFFFFE, 0xFFFFFFF0, 0xFFFFFF00} {
-		_, reads, p := Observe(n, w, 0)
-		if !p && reads == 2 {
+	acc, okAcc := AcceptedWordFor(n)
+	if !okAcc {
+		rejCache[n] = -1
+		return 0, false
+	}
+	cands := []uint32{0xFFFFFFFF, 0xFFFFFFFE, 0xFFFFFFF0, 0xFFFFFF00, 0, 1, 2}
+	if n > 1 { // the first words of an index's interval under a multiplicative mapping
+		cands = append(cands, uint32((uint64(1)<<32)/uint64(n))+1, uint32((uint64(1)<<32)/uint64(n)))
+	}
+	for _, w := range cands {
+		_, reads, p := Observe(n, w, acc, acc, acc, acc, acc, acc, acc, acc) // a redraw may fetch several words at a time
+		if !p && reads >= 2 {
 			rejCache[n] = int64(w)
 			return w, true
 		}
